@@ -8,7 +8,7 @@
 #include "vh.h"
 #include <unistd.h>
 
-#define NENTRY 11
+#define NENTRY 15
 static const char *GOOD = "{\"kty\":\"oct\",\"k\":\"AAECAwQFBgcICQoLDA0ODw\",\"kid\":\"pre-existing\"}";
 static char tmpname[64];
 
@@ -26,6 +26,20 @@ static jwk_set_t *load_via(int entry, const char *doc, size_t len, size_t *eff_l
 	case 4: *eff_len = len ? len - 1 : 0; return jwks_create_strn(doc, *eff_len);
 	case 9: *eff_len = 0; return jwks_load_strn(NULL, doc, 0);		/* explicit zero length although the buffer holds text */
 	case 10: set = jwks_create(GOOD); *before = 1; *eff_len = 0; return jwks_load_strn(set, doc, 0);
+	case 11: *eff_len = 0; return jwks_create_fromfile("/nonexistent-dir/vh-no-such-file.json");	/* unreadable path: set error, no item */
+	case 12: set = jwks_create(GOOD); *before = 1; *eff_len = 0; return jwks_load_fromfile(set, "/");		/* a directory */
+	case 13: case 14: {	/* FILE* positioned in the middle: what is read is the rest (entry 14: after reading up to EOF once, i.e. nothing) */
+		FILE *f = fopen(tmpname, "wb");
+		if (!f) vh_harness_fail("tmp file");
+		fwrite(doc, 1, len, f);
+		fclose(f);
+		f = fopen(tmpname, "rb");
+		if (entry == 13) { fseek(f, (long)(len / 2), SEEK_SET); memmove((char *)doc, doc + len / 2, len - len / 2); *eff_len = len - len / 2; }
+		else { fseek(f, 0, SEEK_END); *eff_len = 0; }
+		set = jwks_create_fromfp(f);
+		fclose(f);
+		return set;
+	}
 	case 5: case 6: case 7: case 8: {
 		FILE *f = fopen(tmpname, "wb");
 		if (!f) vh_harness_fail("tmp file");
